@@ -220,7 +220,24 @@ def decode(fdp):
     return {'n': n, 'peaks': peaks, 'troughs': troughs, 'rises': rises, 'decays': decays, 'variant': fdp.ConsumeIntInRange(0, 10)}
 
 
+def enum_long(tier, shard, nshards):
+    """a few recordings longer than 2**20 samples (block-wise implementations have seams there)"""
+    sizes = [2 ** 20 + 5000, 2 ** 20 + 777] if tier == 'quick' else [2 ** 20 + 5000, 2 ** 20 + 777, 2 ** 21 + 300, 3 * 2 ** 20 + 11]
+    for i, n in enumerate(sizes):
+        if i % nshards != shard:
+            continue
+        period = [200, 173][i % 2]
+        off = [0, 37][i % 2]
+        peaks = list(range(off, n, period))
+        troughs = [p + period // 2 for p in peaks if p + period // 2 < n]
+        mode = i % 3
+        rises = [t + period // 4 for t in troughs if t + period // 4 < n and t + period // 4 < peaks[-1]] if mode != 1 else None
+        decays = [p + period // 4 for p in peaks if p + period // 4 < max(troughs)] if mode != 2 else None
+        yield {'n': n, 'peaks': peaks, 'troughs': troughs, 'rises': rises, 'decays': decays, 'variant': 0, 'long': True}
+
+
 PARTS = [
+    Part('very-long', check_enum, enum=enum_long, shards={'quick': 2, 'thorough': 4}, time_cap={'quick': 200, 'thorough': 1500}),
     Part('exhaustive', check_enum, enum=enum, shards={'quick': 16, 'thorough': 16}, exhaustive=True,
          time_cap={'quick': 200, 'thorough': 3000}),
     Part('pipeline', check_pipeline, strategy=strat_pipeline, budget={'quick': 900, 'thorough': 40000},
